@@ -324,3 +324,30 @@ def b3(x, y=0):
 
 
 BFUNCS = [b1, b2, b3]
+
+
+# a purely variadic function called with one argument (or none): under a flat keymap without hashing the cache key IS that
+# argument - 0, '', b'' and () are keys that are false in a boolean test
+FALSY = [0, '', 1, 2]
+
+
+def _zvalue(args):
+    return ('z',) + tuple(args)
+
+
+def z1(*args):
+    _body('z1', args[0] if args else 'none', 0)
+    return _zvalue(args)
+
+
+def z2(*args):
+    _body('z2', args[0] if args else 'none', 0)
+    return _zvalue(args)
+
+
+def z3(*args):
+    _body('z3', args[0] if args else 'none', 0)
+    return _zvalue(args)
+
+
+ZFUNCS = [z1, z2, z3]
